@@ -14,7 +14,7 @@ META = dict(
     watchdog_s={"quick": 1500, "thorough": 5400},
     evaluations_counter="executions",
     min={"histories": 100, "faults_injected": 20, "faults_fired": 20, "registry_comparisons": 200, "purity_checks": 300,
-         "library_purity_checks": 200, "forward_exception_exits": 10, "nested_contexts": 10, "twin_equivalence_checks": 100, "weights_only_models": 100},
+         "library_purity_checks": 200, "forward_exception_exits": 10, "nested_contexts": 10, "twin_equivalence_checks": 100, "weights_only_models": 100, "glue_models": 200},
     anchors=["calibrate.py:Calibration.__enter__", "calibrate.py:Calibration.__exit__",
              "calibrate.py:Calibration.calibrate_input", "calibrate.py:Calibration.calibrate_output",
              "library/ops.py:disable_extensions", "nn/qmodule.py:QModuleMixin.forward"],
@@ -250,6 +250,121 @@ def library_purity(ctx, oq, r, wd, sig):
                                what="+".join(k for k in g0 if g0[k] != g1.get(k))[:60]), {})
 
 
+GLUE_OPS = ["div_", "idiv", "mul_", "imul", "neg_", "relu_", "copy_", "copy_float", "clamp_", "add_", "sub_scalar_", "zero_",
+            "view_div_", "t_mul_", "detach_div_", "fill_", "div", "mul", "neg", "relu", "view", "transpose", "clone_div_",
+            "index_copy_row", "setitem_row", "masked_fill_"]
+
+
+class Glue(nn.Module):
+    """User-level tensor code between quantized layers: the intermediate activations it touches (also in place) are the
+    tensors quantized modules hand out, so whatever it does to them must never reach a module's own state."""
+
+    def __init__(self, ops, c):
+        super().__init__()
+        self.a, self.b, self.c = nn.Linear(16, 16), nn.Linear(16, 16), nn.Linear(16, 8)
+        self.ops, self.k = list(ops), c
+
+    def forward(self, x):
+        y, z = self.a(x), self.b(x)
+        k = self.k
+        for op in self.ops:
+            if op == "div_":
+                y.div_(k)
+            elif op == "idiv":
+                y /= k
+            elif op == "mul_":
+                y.mul_(k)
+            elif op == "imul":
+                y *= k
+            elif op == "neg_":
+                y.neg_()
+            elif op == "relu_":
+                torch.nn.functional.relu(y, inplace=True)
+            elif op == "copy_":
+                y.copy_(z)
+            elif op == "copy_float":
+                y.copy_(z.dequantize() if hasattr(z, "qtype") else z)
+            elif op == "clamp_":
+                y.clamp_(-1.0, 1.0)
+            elif op == "add_":
+                y.add_(z)
+            elif op == "sub_scalar_":
+                y.sub_(k)
+            elif op == "zero_":
+                z.zero_()
+            elif op == "fill_":
+                z.fill_(k)
+            elif op == "view_div_":
+                y.view(-1, 16).div_(k)
+            elif op == "t_mul_":
+                y.transpose(0, -1).mul_(k)
+            elif op == "detach_div_":
+                y.detach().div_(k)
+            elif op == "clone_div_":
+                y = y.clone()
+                y.div_(k)
+            elif op == "index_copy_row":
+                y[0].copy_(z[0])
+            elif op == "setitem_row":
+                y[0] = z[0]
+            elif op == "masked_fill_":
+                y.masked_fill_(torch.zeros(y.shape, dtype=torch.bool), k)
+            elif op == "div":
+                y = y / k
+            elif op == "mul":
+                y = y * k
+            elif op == "neg":
+                y = -y
+            elif op == "relu":
+                y = torch.relu(y)
+            elif op == "view":
+                y = y.view(-1, 16)
+            elif op == "transpose":
+                y = y.transpose(0, -1).transpose(0, -1)
+        return self.c(y) + (self.c(z) if not hasattr(y, "qtype") else 0)
+
+
+def glue_models(ctx, oq, r, wd, aq, sig0, desc):
+    """Calibrated (not streamlined) activation-quantized models whose forward manipulates quantized intermediates."""
+    ops = [GLUE_OPS[int(r.integers(len(GLUE_OPS)))] for _ in range(int(r.integers(1, 4)))]
+    k = float(r.choice([2.0, 4.0, 0.5, 3.0]))
+    wq = ["qint8", "qfloat8", "qint4"][int(r.integers(3))]
+    if wd == torch.bfloat16 and wq == "qint8":
+        wq = "qfloat8"
+    torch.manual_seed(int(r.integers(1 << 30)))
+    # calibrated as a plain stack of layers (the glue is switched on afterwards, as when a checkpoint calibrated elsewhere
+    # is loaded into the user's model): every module then holds its own, distinct scales
+    m = Glue([], k).to(wd)
+    oq.quantize(m, weights=oq.qtypes[wq], activations=oq.qtypes[aq])
+    x = lifecycle.batch(r, (int(r.integers(2, 6)), 16), wd)
+    try:
+        with torch.no_grad(), oq.Calibration(streamline=False):
+            m(x)
+        m.ops = ops
+        if r.random() < 0.5:
+            oq.freeze(m)
+    except Exception as e:
+        # the glue code itself may be refused on quantized tensors (that is C05's business, not a side effect)
+        ctx.count("glue_models_refused")
+        ctx.see("glue_refusals", f"{'+'.join(ops)}:{type(e).__name__}", cap=200)
+        return
+    sig = dict(sig0, model="glue", op="+".join(sorted(set(ops))))
+    sig.pop("shape", None)
+    # the very first inference after calibration is the one compared with the calibrated state: a corruption that is
+    # idempotent (a scale overwritten by the same value on every forward) would be invisible afterwards
+    for j in range(2):
+        try:
+            pure_forward(ctx, m, lifecycle.batch(r, (int(r.integers(2, 6)), 16), wd), sig,
+                         dict(desc=desc, ops=ops, k=k, weights=wq))
+        except Exception as e:
+            ctx.count("glue_models_refused")
+            ctx.see("glue_refusals", f"{'+'.join(ops)}:{type(e).__name__}", cap=200)
+            return
+    ctx.count("glue_models")
+    for op in ops:
+        ctx.see("glue_ops", op)
+
+
 def build_model(oq, r, wd, aq):
     kind = ["mlp_small", "conv", "mlp_ln", "linear"][r.integers(4)]
     wq = ["qint8", "qfloat8", "qint4"][r.integers(3)]
@@ -436,6 +551,9 @@ def run(ctx):
             except Exception as e:
                 ctx.violation(dict(sig0, kind="weights_only_inference_raises", exc=type(e).__name__),
                               dict(desc=desc, model=k2, weights=wq2, msg=str(e)[:200]))
+        # ---- models whose forward manipulates the quantized activations handed out by quantized modules
+        for _ in range(3):
+            glue_models(ctx, oq, r, wd, aq, sig0, desc)
         # ---- frozen / unfrozen inference purity and library purity
         oq.freeze(model)
         for _ in range(3):
